@@ -78,10 +78,10 @@ def run(run):
         run.obligations_for(["Csvq.Props.C14"])
 
     before = len(run.problems)
-    run.stream("c14", 480 if q else 20000, timeout=1500)
+    run.stream("c14", 480 if q else 10000, timeout=1500)
     if not q:
         for k in range(1, 3):
-            run.stream("c14", 20000, seed_offset=k, timeout=1500)
+            run.stream("c14", 10000, seed_offset=k, timeout=1500)
     # a syntax tree that reads differently after execution, or a second evaluation that differs, where the
     # statement contains an aggregate applied to `*` as an analytic function, is the dynamic face of the
     # static site analytic_function.go:Analyze:fn.Args[0] (F8, fixed in 02f8662): should that site ever
